@@ -2132,4 +2132,12 @@ theorem nexttoward_accepted (m : Mode) (ta : Bool) (x y : U128) (f : UInt32) :
       Accepted (expect "next_toward" m [.d (bitsOf x), .d (bitsOf y)] ta) r f f' :=
   ⟨_, _, nexttoward_spec x y f, by rw [expect_next_toward]; exact after_accepted _ _ f⟩
 
+-- the smallest subnormal towards 0 (→ +0, underflow + inexact): the outcome is what the judge expects for `next_after`
+example : ∃ r f', bid128_nextafter ⟨1, 0⟩ ⟨0, 0x3040000000000000⟩ 0 = .ok (r, f') ∧
+    Accepted (expect "next_after" .rne [.d (bitsOf ⟨1, 0⟩), .d (bitsOf ⟨0, 0x3040000000000000⟩)] false) r 0 f' :=
+  nextafter_accepted _ _ _ _ _
+example : ∃ r f', bid128_nextup ⟨5, 0xfe03ffffffffffff⟩ 0x20 = .ok (r, f') ∧
+    Accepted (expect "next_up" .rtz [.d (bitsOf ⟨5, 0xfe03ffffffffffff⟩)] false) r 0x20 f' :=
+  nextup_accepted _ _ _ _
+
 end Dec.C17GenNext
